@@ -145,16 +145,17 @@ P("C16", [f"{ING}:_sanitize_pixels", f"{ING}:_validate_pixels", f"{RQ}:FillLower
 P("C17", [f"{CR}:create", f"{CR}:create_scool"], "bounded/C17.py", "Proof core: the per-cell append path of create() (create() itself is verified as a coordinator over a ghost operation log (every helper and h5py call replaced by a recording stub; 41 configurations of mode/append/root-or-nested target/check flags/input forms/single-cell append, symbolic paths, counts and symmetric flag)): a cell's chroms table and its three standard bin columns are hard links to the ROOT tables of the single-cell file named by scool_root_uri (no table is written again), its own extra bin columns - exactly the non-standard columns of the cell's bin table - are stored per cell under <cell>/bins, its pixels, indexes and info are written as for any collection, the root file is never truncated, and append_scool without a root URI is refused. create_scool itself (coordinator, 1..3 cells given in an insertion order different from the sorted one, common or per-cell bin tables): every cell gets exactly one per-cell create at <file>::/cells/<name> with ITS OWN pixels and ITS OWN bin table, appended and linked to this file's root; the root gets the common chroms, the three standard bin columns and a scool info record with ncells = number of cells; the file is created with the caller's mode once; a bins dict with other keys than the cells is refused. (A name containing '/' is stored under its basename: known finding, refuted clause.) Larger cell sets, reading back and listing are covered by the bounded tier.", level="other",
   unverified=["list_scool_cells / is_scool_file", "create_scool for more than 3 cells (the per-cell loop does not depend on the count)", "h5py hard-link semantics (assumed)"])
 
-P("C18", [f"{CR}:_rename_chroms", f"{CR}:rename_chroms"], "bounded/C18.py",
+P("C18", [f"{CR}:_rename_chroms", f"{CR}:rename_chroms", "cooler.api:Cooler._refresh"], "bounded/C18.py",
   "Proof core: _rename_chroms over a ghost operation log of the HDF5 group, for all tables, maps and both "
   "chromosome encodings (plus the enum-header-too-large fallback): the only datasets removed or created are "
   "chroms/name and - for an enum column - bins/chrom; chroms/name afterwards holds the old names with the map "
   "applied pointwise in the original order; the bins/chrom codes written are the codes read and the enum sends "
   "the i-th new name to i; rename_chroms applies the caller's map through a writable handle and refreshes the "
   "object after closing it.  pandas rename/set_index, Series.cat.codes and h5py delete/create_dataset are assumed "
-  "contracts (stubs).  What a reopened Cooler then reads, chains of renamings and name-based queries are "
-  "explored by the bounded tier.", level="other",
-  unverified=["Cooler._refresh", "pandas DataFrame.rename / Categorical codes (assumed)",
+  "contracts (stubs).  Cooler._refresh (run by the constructor and after renaming): the cached name -> id map sends the i-th STORED "
+  "name to i, the cached lengths are the stored length column indexed by the stored names, info comes from the same group. "
+  "Chains of renamings and name-based queries on real files are explored by the bounded tier.", level="other",
+  unverified=["pandas DataFrame.rename / Categorical codes (assumed)",
               "h5py dataset replacement and fixed-width string dtype (assumed)"])
 
 P("C19", [f"{UT}:parse_humanized", f"{UT}:parse_cooler_uri", f"{UT}:parse_region"], "bounded/C19.py",
